@@ -18,9 +18,54 @@ package resolve
 //@   ensures len(r.errors) == old(len(r.errors)) + 1
 //@ func resolver.expr
 //@   prop C09 C02
+//@   invariant 1 r.loops == old(r.loops) && r.ifstmts == old(r.ifstmts)
+//@   invariant 2 r.loops == old(r.loops) && r.ifstmts == old(r.ifstmts)
+//@   invariant 3 r.loops == old(r.loops) && r.ifstmts == old(r.ifstmts)
+//@   invariant 4 r.loops == old(r.loops) && r.ifstmts == old(r.ifstmts)
+//@   invariant 5 r.loops == old(r.loops) && r.ifstmts == old(r.ifstmts)
+//@   ensures nesting_counters_balanced: r.loops == old(r.loops) && r.ifstmts == old(r.ifstmts)
 //@   snap /if p / e0 = len(r.errors)
 //@   snap /if p / p0 = p
 //@   assert /if n / positional_limit: p0 > 255 ==> len(r.errors) > e0
 //@   snap /if n / e1 = len(r.errors)
 //@   snap /if n / n1 = n
 //@   assert /^}$/ keyword_limit: typeis(e, *syntax.CallExpr) && n1 > 255 ==> len(r.errors) > e1
+
+// ---- nesting rules (C09): r.loops / r.ifstmts count the loops and conditionals enclosing the
+// statement being resolved *within the current function*. Every resolver routine leaves them as
+// it found them; both suites of an if run one level deeper, a loop body one loop deeper, a
+// function body starts at zero loops; break/continue outside a loop and a nested load are reported.
+//@ func resolver.stmts
+//@   prop C09
+//@   invariant 1 r.loops == old(r.loops) && r.ifstmts == old(r.ifstmts)
+//@   ensures nesting_counters_balanced: r.loops == old(r.loops) && r.ifstmts == old(r.ifstmts)
+//@ func resolver.assign
+//@   prop C09
+//@   invariant 1 r.loops == old(r.loops) && r.ifstmts == old(r.ifstmts)
+//@   invariant 2 r.loops == old(r.loops) && r.ifstmts == old(r.ifstmts)
+//@   ensures nesting_counters_balanced: r.loops == old(r.loops) && r.ifstmts == old(r.ifstmts)
+//@ func resolver.function
+//@   prop C09
+//@   invariant 1 r.loops == old(r.loops) && r.ifstmts == old(r.ifstmts)
+//@   invariant 2 r.loops == 0 && r.ifstmts == old(r.ifstmts)
+//@   assert /r.stmts\(function.Body\)/ body_starts_outside_loops: r.loops == 0 && r.ifstmts == old(r.ifstmts)
+//@   ensures nesting_counters_balanced: r.loops == old(r.loops) && r.ifstmts == old(r.ifstmts)
+//@ func resolver.stmt
+//@   prop C09
+//@   invariant 1 r.loops == old(r.loops) && r.ifstmts == old(r.ifstmts)
+//@   assert /r.stmts\(stmt.True\)/ then_suite_is_conditional: r.ifstmts == wrap64(old(r.ifstmts) + 1) && r.loops == old(r.loops)
+//@   assert /r.stmts\(stmt.False\)/ else_suite_is_conditional: r.ifstmts == wrap64(old(r.ifstmts) + 1) && r.loops == old(r.loops)
+//@   assert /r.stmts\(stmt.Body\)/#1 for_body_is_in_loop: r.loops == wrap64(old(r.loops) + 1) && r.ifstmts == old(r.ifstmts)
+//@   assert /r.stmts\(stmt.Body\)/#2 while_body_is_in_loop: r.loops == wrap64(old(r.loops) + 1) && r.ifstmts == old(r.ifstmts)
+//@   assert /for i, from := range stmt.From/ nested_load_reported: old(r.loops) > 0 || old(r.ifstmts) > 0 ==> len(r.errors) > old(len(r.errors))
+//@   ensures stray_break_reported: typeis(stmt, *syntax.BranchStmt) && old(r.loops) == 0 && (as(stmt, *syntax.BranchStmt).Token == syntax.BREAK || as(stmt, *syntax.BranchStmt).Token == syntax.CONTINUE) ==> len(r.errors) > old(len(r.errors))
+//@   ensures nesting_counters_balanced: r.loops == old(r.loops) && r.ifstmts == old(r.ifstmts)
+
+// The name predicates handed to the resolver by its caller are assumed not to write resolver
+// state (they are plain lookups in the host's tables; the resolver itself never escapes to them).
+//@ func resolver.isGlobal
+//@   pure
+//@ func resolver.isPredeclared
+//@   pure
+//@ func resolver.isUniversal
+//@   pure
